@@ -204,4 +204,195 @@ theorem amdp_dense_reward_finite_now (evs : List Ev) (n s a : Nat) :
     isFin (amdpRDense AITB.Gen.Guards.amdpDenseGuardedDivide evs n s a) = true := by
   rw [amdp_division_guarded]; exact amdp_dense_reward_finite evs n s a
 
+/-! ## conversions: generic → dense → sparse → dense -/
+
+theorem copyDense_valid (m : Src) (s : St) (h : copyDense m = some s) : ValidT ⟨.dense, .dense⟩ s ∧ s.disc = m.disc := by
+  obtain ⟨_, _, hd, hg, _, _, hrows⟩ := copyDense_preserves m s h
+  refine ⟨⟨by rw [hd]; exact (discGuard_iff .dense _).1 hg, hrows, ?_⟩, hd⟩
+  unfold copyDense at h
+  split at h
+  · cases h
+  · split at h
+    · cases h; intro mm hm; cases hm
+    · cases h
+
+theorem copySparse_valid (m : Src) (s : St) (h : copySparse m = some s) :
+    ValidT ⟨.sparse, .sparse⟩ s ∧ s.disc = m.disc ∧ RowsOK RowS s.T := by
+  obtain ⟨_, _, hd, hg, _, _, hrows⟩ := copySparse_preserves m s h
+  refine ⟨⟨by rw [hd]; exact (discGuard_iff .sparse _).1 hg, fun mm hm row hr => rowT_of_RowS .sparse (hrows mm hm row hr), ?_⟩, hd, hrows⟩
+  unfold copySparse at h
+  split at h
+  · cases h
+  · split at h
+    · cases h; intro mm hm; cases hm
+    · cases h
+
+/-- **convert_rejects_or_valid**: converting ANY source model (user-defined, probability-query-only included) to
+    either library representation either throws (no object) or yields a valid model with the source's discount whose
+    stored rows are strict distributions — there is no third outcome. -/
+theorem convert_rejects_or_valid (k : Rep) (m : Src) :
+    copyBase k m = none ∨ ∃ s, copyBase k m = some s ∧ ValidT ⟨k, k⟩ s ∧ s.disc = m.disc ∧ RowsOK RowS s.T := by
+  cases hc : copyBase k m with
+  | none => left; rfl
+  | some s =>
+      right
+      refine ⟨s, rfl, ?_⟩
+      cases k with
+      | dense =>
+          have := copyDense_valid m s hc
+          exact ⟨this.1, this.2, this.1.T⟩
+      | sparse =>
+          have := copySparse_valid m s hc
+          exact ⟨this.1, this.2.1, this.2.2⟩
+
+/-- number of entries of a row the sparse storage drops -/
+def nDropped (qs : List Rat) : Nat := (qs.filter (fun q => !decide (spQ q = q))).length
+
+/-- **explicit sparsification slack**: the mass lost by storing a non-negative row sparsely is at most 1e-6 per
+    dropped entry -/
+theorem dropped_mass_le (qs : List Rat) (h : ∀ q ∈ qs, 0 ≤ q) :
+    0 ≤ sumQ qs - sumQ (qs.map spQ) ∧ sumQ qs - sumQ (qs.map spQ) ≤ tol * nDropped qs := by
+  induction qs with
+  | nil => simp [sumQ, nDropped]
+  | cons q r ih =>
+      have hq := spQ_bounds (h q (by simp))
+      have hr := ih (fun x hx => h x (by simp [hx]))
+      simp only [nDropped] at hr
+      by_cases he : spQ q = q
+      · simp only [List.map, sumQ, nDropped, List.filter_cons, he, decide_true, Bool.not_true, Bool.false_eq_true, if_false]
+        constructor <;> linarith [hr.1, hr.2]
+      · simp only [List.map, sumQ, nDropped, List.filter_cons, he, decide_false, Bool.not_false, if_true,
+          List.length_cons, Nat.cast_succ]
+        constructor <;> nlinarith [hr.1, hr.2, hq.1, hq.2.1, hq.2.2]
+
+theorem nDropped_le (qs : List Rat) : nDropped qs ≤ qs.length := List.length_filter_le _ _
+
+/-- an entry above the tolerance is kept -/
+theorem spQ_keep {q : Rat} (h : tol < q) : spQ q = q := by
+  unfold spQ
+  have ht := tol_pos
+  split_ifs with h1 h2 h2 <;> linarith
+
+theorem nDropped_lt_of_kept (qs : List Rat) (q : Rat) (hq : q ∈ qs) (hk : spQ q = q) : nDropped qs < qs.length := by
+  induction qs with
+  | nil => cases hq
+  | cons x r ih =>
+      have hle := nDropped_le r
+      simp only [nDropped] at hle ih ⊢
+      rcases List.mem_cons.1 hq with rfl | hm
+      · simp only [List.filter_cons, hk, decide_true, Bool.not_true, Bool.false_eq_true, if_false, List.length_cons]
+        omega
+      · have := ih hm
+        by_cases he : spQ x = x
+        · simp only [List.filter_cons, he, decide_true, Bool.not_true, Bool.false_eq_true, if_false, List.length_cons]; omega
+        · simp only [List.filter_cons, he, decide_false, Bool.not_false, if_true, List.length_cons]; omega
+
+theorem sumQ_le_of_all_le (qs : List Rat) (c : Rat) (h : ∀ q ∈ qs, q ≤ c) : sumQ qs ≤ c * qs.length := by
+  induction qs with
+  | nil => simp [sumQ]
+  | cons q r ih =>
+      have := ih (fun x hx => h x (by simp [hx]))
+      have := h q (by simp)
+      simp only [sumQ, List.length_cons, Nat.cast_succ]; nlinarith
+
+/-- **the (n−1)·1e-6 slack**: a strictly valid row of n entries (n·1e-6 < 1 − 1e-6, i.e. fewer than 999 999 states)
+    stored sparsely keeps non-negative entries and a sum within 1e-6 + (n−1)·1e-6 of one: at least one entry survives -/
+theorem sparsified_row_slack (qs : List Rat) (h : RowS (qs.map .fin)) (hn : tol * qs.length < 1 - tol) :
+    -(tol + tol * (qs.length - 1)) ≤ sumQ (qs.map spQ) - 1 ∧ sumQ (qs.map spQ) - 1 ≤ tol := by
+  obtain ⟨qs', hmap, hge, h1, h2⟩ := h
+  have hinj : qs' = qs := by
+    have := congrArg (List.map (fun x : XRat => match x with | .fin q => q | _ => 0)) hmap
+    simpa [List.map_map, Function.comp_def] using this.symm
+  subst hinj
+  have hd := dropped_mass_le qs' hge
+  -- some entry exceeds the tolerance, hence is kept
+  have hex : ∃ q ∈ qs', tol < q := by
+    by_contra hno
+    simp only [not_exists, not_and, not_lt] at hno
+    have := sumQ_le_of_all_le qs' tol hno
+    linarith
+  obtain ⟨q, hq, hqt⟩ := hex
+  have hlt := nDropped_lt_of_kept qs' q hq (spQ_keep hqt)
+  have hcast : (nDropped qs' : Rat) ≤ (qs'.length : Rat) - 1 := by
+    have : nDropped qs' + 1 ≤ qs'.length := hlt
+    have := (Nat.cast_le (α := Rat)).2 this
+    push_cast at this; linarith
+  have ht := tol_pos
+  constructor
+  · nlinarith [hd.1, hd.2]
+  · linarith [hd.1]
+
+theorem get3_srcOf_T (s : St) (x a x1 : Nat) (hx : x < s.S) (ha : a < s.A) (hx1 : x1 < s.S) :
+    get3 (srcOf s).T x a x1 = get3 s.T a x x1 := get3_mk3 _ _ _ _ _ _ _ hx ha hx1
+
+theorem srcRow_srcOf (s : St) (x a : Nat) (hx : x < s.S) (ha : a < s.A) :
+    srcRow (srcOf s) x a = (List.range s.S).map (fun x1 => get3 s.T a x x1) := by
+  simp only [srcRow, rowOf]
+  apply List.map_congr_left
+  intro x1 h1
+  exact get3_srcOf_T s x a x1 hx ha (List.mem_range.1 h1)
+
+/-- a sparse model built by the converting constructor converts back to dense without rejection:
+    its stored rows are strict distributions and its discount is a discount -/
+theorem sparse_copy_converts_back (m : Src) (sp : St) (h : copySparse m = some sp) :
+    ∃ d2, copyDense (srcOf sp) = some d2 := by
+  obtain ⟨hS, hA, hd, hg, hent, _, hrows⟩ := copySparse_preserves m sp h
+  have hv := (copySparse_valid m sp h).1
+  have hg2 : (discGuard .dense).eval (srcOf sp).disc = false := (discGuard_iff .dense _).2 hv.disc
+  unfold copyDense
+  simp only [hg2, Bool.false_eq_true, if_false]
+  have hall : ((List.range (srcOf sp).A).all fun a => (List.range (srcOf sp).S).all fun s => isProbLoop (srcRow (srcOf sp) s a)) = true := by
+    simp only [List.all_eq_true, List.mem_range]
+    intro a ha x hx
+    have ha' : a < sp.A := ha
+    have hx' : x < sp.S := hx
+    rw [srcRow_srcOf sp x a hx' ha']
+    apply (isProbLoop_iff _).2
+    -- this is the (a,x) row of sp.T
+    have hT : sp.T = mk3 m.A m.S m.S (fun a s s1 => sparsify (get3 m.T s a s1)) := by
+      unfold copySparse at h
+      split at h
+      · cases h
+      · split at h
+        · cases h; rfl
+        · cases h
+    have hmem : (List.range sp.S).map (fun x1 => get3 sp.T a x x1) ∈ (sp.T.getD a []) ∨ True := Or.inr trivial
+    have hrow : (List.range sp.S).map (fun x1 => get3 sp.T a x x1)
+        = (List.range m.S).map (fun x1 => sparsify (get3 m.T x a x1)) := by
+      rw [hS]
+      apply List.map_congr_left
+      intro x1 h1
+      exact hent a (by rw [← hA]; exact ha') x (by rw [← hS]; exact hx') x1 (List.mem_range.1 h1)
+    rw [hrow]
+    apply hrows
+    · rw [hT]; simp only [mk3, List.mem_map, List.mem_range]
+      exact ⟨a, by rw [← hA]; exact ha', rfl⟩
+    · simp only [List.mem_map, List.mem_range]
+      exact ⟨x, by rw [← hS]; exact hx', rfl⟩
+  simp only [hall, if_true]
+  exact ⟨_, rfl⟩
+
+/-- **round trip generic → dense → sparse → dense**: when the three conversions succeed, the final dense model has
+    the source's discount and each of its transition entries is the source's entry passed through the storage
+    threshold (so it differs from the source by at most 1e-6 and is exact above the threshold); it is valid. -/
+theorem roundtrip_dense_sparse_dense (m : Src) (d sp d2 : St)
+    (h1 : copyDense m = some d) (h2 : copySparse (srcOf d) = some sp) (h3 : copyDense (srcOf sp) = some d2) :
+    d2.disc = m.disc ∧ ValidT ⟨.dense, .dense⟩ d2 ∧
+    ∀ a < m.A, ∀ x < m.S, ∀ x1 < m.S, get3 d2.T a x x1 = sparsify (get3 m.T x a x1) := by
+  obtain ⟨hS1, hA1, hd1, _, hent1, _, _⟩ := copyDense_preserves m d h1
+  obtain ⟨hS2, hA2, hd2, _, hent2, _, _⟩ := copySparse_preserves (srcOf d) sp h2
+  obtain ⟨hS3, hA3, hd3, _, hent3, _, _⟩ := copyDense_preserves (srcOf sp) d2 h3
+  have hv := copyDense_valid (srcOf sp) d2 h3
+  refine ⟨by rw [hd3]; show sp.disc = m.disc; rw [hd2]; show d.disc = m.disc; exact hd1, hv.1, ?_⟩
+  intro a ha x hx x1 hx1
+  have hSd : (srcOf d).S = m.S := hS1
+  have hAd : (srcOf d).A = m.A := hA1
+  have hSsp : (srcOf sp).S = m.S := by show sp.S = m.S; rw [hS2]; exact hSd
+  have hAsp : (srcOf sp).A = m.A := by show sp.A = m.A; rw [hA2]; exact hAd
+  rw [hent3 a (by rw [hAsp]; exact ha) x (by rw [hSsp]; exact hx) x1 (by rw [hSsp]; exact hx1)]
+  rw [get3_srcOf_T sp x a x1 (by rw [hS2, hSd]; exact hx) (by rw [hA2, hAd]; exact ha) (by rw [hS2, hSd]; exact hx1)]
+  rw [hent2 a (by rw [hAd]; exact ha) x (by rw [hSd]; exact hx) x1 (by rw [hSd]; exact hx1)]
+  rw [get3_srcOf_T d x a x1 (by rw [hS1]; exact hx) (by rw [hA1]; exact ha) (by rw [hS1]; exact hx1)]
+  rw [hent1 a ha x hx x1 hx1]
+
 end AITB.MS
